@@ -249,13 +249,13 @@ def direct_case(draw, tier):
 
 def strategy(tier):
     mx = 8 if tier == "quick" else 12
-    return st.one_of(
+    return G.with_options(st.one_of(
         G.problem(min_streams=3, max_streams=mx, shape="mixed", thirds=False),
         G.problem(min_streams=3, max_streams=mx, shape="mixed", thirds=False, iso_share=0.0),
         G.problem(min_streams=2, max_streams=mx, shape="mixed", multi_zone=True, thirds=False),
         G.problem(min_streams=2, max_streams=mx, thirds=False, with_utilities=False),
         G.problem(min_streams=2, max_streams=mx, shape="mixed"),
-    )
+    ))
 
 
 PARTS = [
